@@ -1,6 +1,26 @@
 package main
 
+import "fmt"
+
+func c01Variants(tier string) []variant {
+	vs := []variant{
+		{Name: "race-jitter", Race: true, Shim: "jitter", Verbose: true, Shards: 9},
+		{Name: "tracked", Shim: "tracked", Verbose: false, Shards: 9},
+	}
+	if tier == "thorough" {
+		for _, p := range []int{4, 2, 1} {
+			vs = append(vs, variant{Name: fmt.Sprintf("race-jitter-p%d", p), Race: true, Shim: "jitter", Verbose: true, Shards: 9, Env: []string{fmt.Sprintf("GOMAXPROCS=%d", p)}})
+		}
+		vs = append(vs, variant{Name: "tracked-p2", Shim: "tracked", Shards: 9, Env: []string{"GOMAXPROCS=2"}})
+	}
+	return vs
+}
+
 func init() {
+	reg(&propCfg{ID: "C01", Pkg: "./props/c01", Variants: c01Variants,
+		Level:       "held on every executed scenario: every unordered pair (incl. self-pairs) of public methods of each of the 8 lock-guarded types (cache with and without the cleanup goroutine) x initial states {0,1,3 elements} x randomised start order x 20 (thorough 200) repetitions under the race detector with yields injected at every lock boundary, the same scenarios x 40 (300) under the tracked shim (deadlock verdict, leaked lock, usability afterwards, panic filter), long random mixes; thorough adds triples and GOMAXPROCS in {16,4,2,1}",
+		Technique:   "Go race detector over a pairwise method-scenario table with injected delays at lock boundaries (sync shim) + tracked-lock shim deciding deadlock/leaked-lock/usability",
+		Assumptions: []string{"the scratch copy differs from /repo only by the redirected sync import (regenerated from the working tree on every run)", "race reports are schedule-insensitive once both accesses execute in one scenario; panics and deadlocks depend on the interleavings the runtime + jitter produce", "not asserted: re-entrancy (a Traverse callback calling back into the tree); btree, list, LRUCache (not thread-safe by contract)"}})
 	reg(&propCfg{ID: "C03", Pkg: "./props/c03", Variants: simple(false),
 		Level:       "held on every executed case: complete sweep of all operation sequences up to length 6 (thorough 7) over push(4 values incl. a comparator tie)/pop/clear/convert/delete under both comparators, FromSlice and Sort on all slices up to length 6 (8), plus seeded random long sequences with Merge/Meld; every Pop/Peek checked for extremality with the comparator itself and the held multiset compared after every step",
 		Technique:   "reference-model trace monitor (multiset model + comparator as order oracle) over systematic small-scope sweep + seeded random sequences",
